@@ -9,7 +9,8 @@ CLAIM = {
   "text": "Proved for all field lists and both validator options: the retained fields are exactly the non-expanded, restored, (valid or preserved) fields in their original order; "
           "at most 255 of them, each value at most 255 bytes, of the type of its base type, strings valid UTF-8; protocol 1.0 accepts no developer field and no post-1.0 base "
           "type; validating twice equals validating once whenever restoring twice equals restoring once, which holds for every profile field (Inst sweep) and is refuted for "
-          "developer fields described as float64 with a scale (known finding). The developer-field loop, error classes and 'rejected messages write nothing' are decided per run "
+          "developer fields described as float64 with a scale (known finding). Developer fields (C10_frame_devs): accepted ones all belong to a declared developer data index "
+          "and have a field description; retained are exactly the restored ones valid under the description's base type, in order, at most 255. Error classes and 'rejected messages write nothing' are decided per run "
           "by correspondence and the Go oracle.",
   "note": NOTE_COMMON + " Float restoration uses Coq primitive floats (IEEE binary64 as Go's float64 on amd64); double->single rounding (float32 targets) is outside the model."}
 
